@@ -2,6 +2,7 @@ package main
 
 import (
 	"fmt"
+	"go/token"
 	"go/types"
 	"math/big"
 	"sort"
@@ -46,6 +47,11 @@ func (fr *Frame) bodyEnv(b *ssa.BasicBlock, mem Mem) *SpecEnv {
 	env := &SpecEnv{ex: fr.ex, fr: fr, pkgPath: pkg, vars: map[string]Val{}, mem: mem, old: fr.entry}
 	for i, p := range fr.fn.Params {
 		env.vars[p.Name()] = fr.params[i]
+	}
+	if fr.top {
+		for k, v := range fr.ex.ghosts {
+			env.vars[k] = v
+		}
 	}
 	for i, fv := range fr.fn.FreeVars {
 		if v, ok := fr.vals[fv]; ok {
@@ -129,7 +135,7 @@ func (fr *Frame) enterLoop(lp *Loop, b *ssa.BasicBlock) bool {
 	// havoc
 	roots, unknown := fr.modifiedRoots(lp)
 	if unknown {
-		ex.oos("%s: %s writes through a pointer that is not a local cell", shortName(fr.fn.String()), name)
+		ex.oos("%s: %s writes through a pointer that is not a local cell: %s", shortName(fr.fn.String()), name, fr.lastUnknown)
 	}
 	for _, p := range phis {
 		old, ok := fr.vals[p].(TV)
@@ -172,11 +178,16 @@ func (fr *Frame) enterLoop(lp *Loop, b *ssa.BasicBlock) bool {
 		hav[p] = fr.vals[p]
 	}
 	env2 := fr.loopEnv(lp, hav, fr.mem)
-	// automatic range-loop fact: -1 <= rangeindex (upper bound follows from the loop test)
+	// automatic range-loop invariant -1 <= rangeindex < len, proved like any other invariant:
+	// entry (-1 < len) here, preservation in closeLoop.
 	for _, p := range phis {
 		if p.Comment == "rangeindex" {
 			if tv, ok := hav[p].(TV); ok {
 				ex.assume(fr.cur, Ge(tv.T, IntC(-1)))
+				if n := fr.rangeLen(lp, p); n != nil {
+					ex.oblige(name+"/inv:rangeindex/entry", "inv-entry", pos, fr.cur, Lt(IntC(-1), n))
+					ex.assume(fr.cur, Lt(tv.T, n))
+				}
 			}
 		}
 	}
@@ -223,7 +234,15 @@ func (fr *Frame) closeLoop(lp *Loop, b *ssa.BasicBlock) {
 		}
 		ex.oblige(fmt.Sprintf("%s/inv:%s/preserved@b%d", name, cl.Label, b.Index), "inv-preserved", pos, g, t)
 	}
-	// automatic: rangeindex stays >= -1 (trivial) — nothing to prove.
+	for _, p := range phis {
+		if p.Comment == "rangeindex" {
+			if tv, ok := next[p].(TV); ok {
+				if n := fr.rangeLen(lp, p); n != nil {
+					ex.oblige(fmt.Sprintf("%s/inv:rangeindex/preserved@b%d", name, b.Index), "inv-preserved", pos, g, And(Ge(tv.T, IntC(-1)), Lt(tv.T, n)))
+				}
+			}
+		}
+	}
 	if fr.con != nil {
 		if d := fr.con.Decr[lp.Ord]; d != nil {
 			hav := map[*ssa.Phi]Val{}
@@ -240,6 +259,31 @@ func (fr *Frame) closeLoop(lp *Loop, b *ssa.BasicBlock) {
 			}
 		}
 	}
+}
+
+// rangeLen returns the length term of a go/ssa range-over-slice loop: the header ends in
+// `if rangeindex+1 < len`.
+func (fr *Frame) rangeLen(lp *Loop, phi *ssa.Phi) *Term {
+	h := lp.Header
+	iff, ok := h.Instrs[len(h.Instrs)-1].(*ssa.If)
+	if !ok {
+		return nil
+	}
+	cmp, ok := iff.Cond.(*ssa.BinOp)
+	if !ok || cmp.Op != token.LSS {
+		return nil
+	}
+	inc, ok := cmp.X.(*ssa.BinOp)
+	if !ok || inc.Op != token.ADD || inc.X != phi {
+		return nil
+	}
+	if c, ok := inc.Y.(*ssa.Const); !ok || c.Int64() != 1 {
+		return nil
+	}
+	if tv, ok := fr.get(cmp.Y).(TV); ok && tv.T.Sort == SInt {
+		return tv.T
+	}
+	return nil
 }
 
 func (fr *Frame) guardMemAtHeader(lp *Loop) Mem {
@@ -394,7 +438,23 @@ func (ex *Exec) verifyTop(fn *ssa.Function, con *Contract) {
 		entryEnv.vars[p.Name()] = args[i]
 	}
 	fr.env = entryEnv
+	ex.ghosts = map[string]Val{}
 	if con != nil {
+		for _, g := range con.Ghosts {
+			gt, err := ex.P.resolveTypeExpr(con.PkgPath, g.Type)
+			if err != nil {
+				panic(specErr{fmt.Sprintf("ghost %s: %v", g.Name, err)})
+			}
+			if gt == nil {
+				ex.ghosts[g.Name] = mathInt(Sym("ghost:"+g.Name, SInt))
+			} else {
+				ex.ghosts[g.Name] = TV{Typed(Sym("ghost:"+g.Name, SortOf(gt)), gt), gt}
+			}
+			entryEnv.vars[g.Name] = ex.ghosts[g.Name]
+			if tv, ok := ex.ghosts[g.Name].(TV); ok {
+				ex.Inputs = append(ex.Inputs, tv.T)
+			}
+		}
 		for _, cl := range con.Requires {
 			t, err := entryEnv.EvalBool(cl.Expr)
 			if err != nil {
